@@ -166,7 +166,8 @@ def build_world(cfg):
     s, metrics = make_scheduler(cfg)
     nb = cfg["brackets"]
     spec = dict(W=cfg["W"], T=cfg["T"], R=sy["R"], table=build_table(cfg), metrics=metrics,
-                brackets=nb if nb > 1 else 0, seed_policy="last" if cfg["prio"] == "ndNL" else "first")
+                brackets=nb if nb > 1 else 0, seed_policy="last" if cfg["prio"] == "ndNL" else "first",
+                reverse_metric_keys=bool(cfg.get("revkeys")))
     ref = MoashaRef(metrics, expand_modes(MODES[cfg["mode"]], cfg["k"]), sy["grace"], sy["rf"], sy["max_t"], nb,
                     ref_prio(cfg["prio"], cfg["k"]))
     w = MoWorld(s, spec, [ref, RungContents(ref)])
@@ -267,7 +268,8 @@ def family(out, seed, systems, nbs, prios, T, W, n_tab, cap, tabs="rot", pick=No
                         (ci + j) % 3 if tabs != "all" else 0]
                     mode = MODES2[(3 * si + pi_ + j + seed) % len(MODES2)]
                     out.append(dict(sys=sname, brackets=nb, prio=prio, mode=mode, k=2, T=T, W=W,
-                                    perms=level_perms(T, 2, levels, (p0, ps[pi]), j), max_states=cap, seed=seed))
+                                    perms=level_perms(T, 2, levels, (p0, ps[pi]), j), max_states=cap, seed=seed,
+                                    revkeys=(len(out) % 2 == 1)))   # every other world: objectives reported in reverse key order
 
 
 def configs(tier, seed):
